@@ -588,6 +588,15 @@ def run(ck, F):
     ck.floor("R1", "tainted holes classified", n_holes, 20)
     # ---- R4: the guards the identifier holes rely on establish the lexical definition of an identifier
     _guard_bodies(ck, F, used_guards)
+    # where the code tells "a keyword was replaced" by the length of the result (`renamed.len() != identifier.len()`), the table has
+    # to make that true: every replacement differs in length from its keyword
+    if RENAME in og.RELIED_LENGTH_DISTINCT and tab is not None:
+        same = sorted(k_ for k_, v_ in tab.items() if len(k_) == len(v_) and k_ != v_)
+        if same:
+            ck.violation("R2", "replacement-length", site, f"a caller tells a renamed keyword from an unchanged name by its length, but `{same[0]}` is "
+                         f"replaced by `{tab[same[0]]}` of the same length: the replacement is thrown away and the keyword written as it is")
+        else:
+            ck.ok("R2", "replacement-length", site, "every replacement of the keyword table differs in length from its keyword (a caller relies on that)")
 
 
 def _split_on_both(nf):
